@@ -59,7 +59,28 @@ CASES = {
 }
 
 
+def chk_finite(inp):
+    """a guide-star offset that projects to exactly half a sub-aperture in x and y makes two baseline end points coincide: the entries are finite
+    (the structure function is 0 at zero separation)"""
+    k = numpy.pi / 180 / 3600
+    h = 0.5 / (10 * k)
+    for _ in range(64):
+        if 10. * k * h == 0.5:
+            break
+        h = numpy.nextafter(h, numpy.inf if 10. * k * h < 0.5 else -numpy.inf)
+    ones = numpy.ones((2, 2))
+    c = aotools.CovarianceMatrix(2, [ones, ones], 2., [1., 1.], [0, 0], [[0, 0], [10, 10]], [5e-7, 5e-7], 1, [h], [0.2], [25.])
+    m = c.make_covariance_matrix()
+    if not numpy.all(numpy.isfinite(m)):
+        return bad("two 2x2 sensors 10 arcsec apart in x and y, one layer at %.6f m (offset = half a sub-aperture): %d of %d entries are not finite" % (h, int((~numpy.isfinite(m)).sum()), m.size),
+                   int((~numpy.isfinite(m)).sum()), 0)
+
+
 def chk_entries(inp):
+    if not (inp and "case" in inp) or inp.get("case") == next(iter(CASES)):
+        r = chk_finite(inp)
+        if r:
+            return r
     names = [inp["case"]] if inp and "case" in inp else list(CASES)
     for name in names:
         c = CASES[name]
